@@ -286,9 +286,32 @@ def vmap_values(vmap):
     return [v for v in vmap.values() if v is not None]
 
 
+def construction_with_inert(chk, r):
+    """building an array from a python list of elements (coordinate type inferred): a missing element anywhere in the list does
+    not change the other elements (mixed integer / fractional coordinates)"""
+    from spatialpandas.geometry import LineArray, MultiPointArray, PointArray
+    for cls, mk in ((PointArray, lambda x, y: [x, y]), (MultiPointArray, lambda x, y: [x, y, x + 1, y]), (LineArray, lambda x, y: [x, y, x + 2, y + 1])):
+        for base in ([[1, 2], [0.5, 1.5]], [[0.25, 7], [3, 4], [5, 6.5]], [[1, 2], [3, 4]]):
+            els = [mk(x, y) for x, y in base]
+            try:
+                ref = [None if e is None else [float(c) for c in e.flat_values] for e in cls(els)]
+                for pos in range(len(els) + 1):
+                    plus = els[:pos] + [None] + els[pos:]
+                    got = [None if e is None else [float(c) for c in e.flat_values] for e in cls(plus)]
+                    want = ref[:pos] + [None] + ref[pos:]
+                    chk.evaluated()
+                    if got != want:
+                        chk.violation(f"inert/{cls.__name__}/constructing-with-a-missing-element-changes-other-elements",
+                                      dict(api=cls.__name__, elements=els, with_inert=plus, got=got, expected=want)); break
+            except Exception as e:  # noqa: BLE001
+                chk.violation(f"inert/{cls.__name__}/construction-raises-{common.err_kind(e)}", dict(api=cls.__name__, elements=els, error=repr(e)[:200]))
+    chk.count("construction-with-inert")
+
+
 def run_cases(chk, tier):
     from .c01 import random_family
     r = common.rng(PROP)
+    construction_with_inert(chk, r)
     rounds = 6 if tier == "quick" else 60
     boxes = [(0, 0, 5, 5), (-3, 2, 4, 9), (1, 1, 1, 1), (-1000, -1000, 1000, 1000)]
     shape = geo.make_array("polygon", [[[0, 0, 9, 0, 9, 9, 0, 9, 0, 0]]], "float64")[0]
